@@ -2,12 +2,16 @@
 //
 // One case = one calculator entry point x one variant x one prior content of the data bases. For that case:
 //   1. the VALID call is run from fresh copies with the failpoint log recording        -> success oracles + hit list
-//   2. every labelled INVALID-ARGUMENT variant of the call is run from fresh copies    -> failure oracles
-//      (when the library accepts the variant and reports success, the success oracles apply instead)
-//   3. for EVERY (site, k) of the hit list (per-site cap first/second/last in quick) the valid call is re-run from
+//      (1b. again with columns named exactly like its outputs already present in the output Db: name collisions)
+//   2. for EVERY (site, k) of the hit list (per-site cap first/second/last in quick) the valid call is re-run from
 //      fresh copies with that failpoint armed: it must report failure and both Dbs must equal their snapshots
+//   3. every labelled INVALID-ARGUMENT variant of the call is run from fresh copies (random order; the variants known
+//      to abort the process are marked `risky`: exactly one of them per case, last)              -> failure oracles
+//      (when the library accepts the variant and reports success, the success oracles apply instead). Many of these
+//      variants are refused INSIDE _run, after the output columns were created: the natural mid-run failures.
 //   4. after every reported failure that left the Dbs clean, the valid call is run on THE SAME objects and must
 //      succeed and create the same columns (name, locator, values bit-for-bit) as in the fresh state.
+// Keys: C19:<calculator>:<success | failpoint=<site>[@nested] | invalid=<label> | accepted-invalid | …>:<dbin|dbout>-<what>
 // Snapshots/diffs: harness/common/c19_snapshot.hpp.
 #include "common/vh.hpp"
 #include "common/c19_snapshot.hpp"
@@ -113,6 +117,7 @@ struct Scen
   std::unique_ptr<Model> model0;
   std::function<ANeigh*()> mkNeigh;
   std::unique_ptr<AAnam> anam0;
+  std::vector<std::shared_ptr<AAnam>> keepAnams; // anamorphoses referenced (not copied) by models: must outlive them
   Call valid;
   std::vector<Call> invalid;
 };
@@ -178,7 +183,7 @@ static bool checkUntouched(Ctx& c, const std::string& oracle, const std::string&
     c.truth(oracle, K(calc, kind, std::string(which) + "-changed"), true);
     std::string sc = c19::selfCheck(b);
     c.truth("selfcheck", K(calc, kind, std::string(which) + "-inconsistent"), sc.empty(), sc);
-    if (c19::uidSlotsGrew(a, b) > 0) c.probe("diag.dead-uid-slots-after-" + std::string(kind.substr(0, 9)));
+    if (c19::uidSlotsGrew(a, b) > 0) c.probe("diag.dead-uid-slots-left");
     return true;
   }
   for (auto& it : d)
@@ -762,8 +767,8 @@ static std::function<ANeigh*()> neighMaker(const NeighOpts& o)
 {
   return [o]() -> ANeigh* {
     SpaceRN sp(o.ndim);
-    // coefficients are always given: without them BiTargetCheckDistance assumes a 2-D space (reads coordinate #2 of a 1-D
-    // point: heap-buffer-overflow in SpacePoint::getCoord — a C06 matter, reported as a side finding)
+    // anisotropy coefficients are always given explicitly (all 1), so that the distance check is dimensioned from them
+    // and not from the default space (that was wrong before /repo 7983a8b7b)
     if (o.moving) return NeighMoving::create(o.xvalid, o.nmaxi, o.radius, o.nmini, o.nsect, ITEST, VectorDouble(o.ndim, 1.), VectorDouble(), &sp);
     return NeighUnique::create(o.xvalid, &sp);
   };
@@ -1875,6 +1880,85 @@ static void scenSimpgs(Rng& r, Ctx& c, Scen& s)
   }
 }
 
+
+// ------------------------------------------------------------------------------------------------
+// Scenario: Discrete Gaussian Model variants (temporary coordinate columns / X roles in the input Db)
+//   kriging(calcul = DGM) and simtub(flag_dgm = true)
+// ------------------------------------------------------------------------------------------------
+static void scenDGM(Rng& r, Ctx& c, Scen& s, const std::string& which)
+{
+  int ndim = r.pick(std::vector<int>{1, 2, 2, 3});
+  defineDefaultSpace(ESpaceType::RN, ndim);
+  bool moving = r.coin(0.4);
+  Prior pin;  pin.tag = "i_"; pin.ndecor = r.irange(1, 5); pin.avoid.push_back(ELoc::NOSTAT.getValue());
+  Prior pout; pout.tag = "o_"; pout.ndecor = r.irange(1, 5);
+  PointOpts po; po.ndim = ndim; po.n = r.irange(8, c.thorough() ? 50 : 22); po.nvar = 1;
+  s.din0.reset(makePoints(r, po, pin));
+  GridOpts go; go.ndim = ndim; go.nx = gridShape(r, ndim, c.thorough() ? 80 : 30); go.nz = r.irange(0, 2); go.forceNostat = r.coin(0.15);
+  s.dout0.reset(makeGrid(r, go, pout));
+  // KrigingSystem::setKrigOptDGM: "limited to Stationary Covariances", "Monovariate case", "requires a Model with Total
+  // Sill equal to 1."; CalcKriging::_check: "the Model must have an Anamorphosis attached", "DGM option requires a
+  // Change of Support to be defined"
+  SpaceRN sp(ndim);
+  auto mk = [&](double sill, bool withAnam) {
+    double nug = r.coin(0.5) ? 0.2 : 0.;
+    Model* m = Model::createFromParam(ECov::SPHERICAL, r.uni(20, 60), sill - nug, 1., VectorDouble(), VectorDouble(), VectorDouble(), &sp);
+    if (nug > 0) m->addCovFromParam(ECov::NUGGET, 0., nug);
+    if (withAnam)
+    {
+      std::shared_ptr<AnamHermite> an(AnamHermite::create(r.irange(4, 10), true, r.uni(0.6, 0.95)));
+      VectorDouble z = s.din0->getColumn("z1", true);
+      if (an->fitFromArray(z) != 0) throw SkipCase{"anam-fit-failed"};
+      m->setAnam(an.get()); // Model::setAnam keeps the pointer (CovLMCAnamorphosis): the object is kept alive by the scenario
+      s.keepAnams.push_back(an);
+    }
+    return m;
+  };
+  s.model0.reset(mk(1., true));
+  auto badSill = std::shared_ptr<Model>(mk(1.7, true));
+  auto noAnam  = std::shared_ptr<Model>(mk(1., false));
+  NeighOpts no; no.ndim = ndim; no.moving = moving; no.nmaxi = r.irange(4, 12); no.radius = r.uni(40, 150);
+  s.mkNeigh = neighMaker(no);
+  Expect e;
+  NamingConvention nc = makeNamconv(r, r.pick(std::vector<std::string>{"DGM", "o_plain0"}), e);
+  s.calc = which;
+  s.valid.label = "valid";
+  Adder add{s, e};
+  if (which == "kriging-dgm")
+  {
+    bool fe = r.coin(0.8), fs = r.coin(0.7);
+    if (!fe && !fs) fe = true;
+    e.newOut = (int)fe + (int)fs;
+    if (fe) e.qual.push_back({"estim", 1});
+    if (fs) e.qual.push_back({"stdev", 1});
+    s.sig = fmt("ndim=%d:neigh=%s:est=%d:std=%d:floc=%d", ndim, moving ? "moving" : "unique", (int)fe, (int)fs, (int)e.flagLocator);
+    auto f = [=](Db* a, Db* b, Model* m, ANeigh* ng) { return kriging(a, b, m, ng, EKrigOpt::DGM, fe, fs, false, VectorInt(), VectorInt(), nullptr, nc); };
+    s.valid.fn = [=](World& w) { return f(w.in(), w.out(), w.model.get(), w.neigh.get()); };
+    add.e = e;
+    add("sill-not-one", [=](World& w) { std::unique_ptr<Model> m(badSill->clone()); return f(w.in(), w.out(), m.get(), w.neigh.get()); }); // refused in _run, after the centring
+    add("model-without-anam", [=](World& w) { std::unique_ptr<Model> m(noAnam->clone()); return f(w.in(), w.out(), m.get(), w.neigh.get()); });
+    add("dbout-points", [=](World& w) { return f(w.in(), w.out(), w.model.get(), w.neigh.get()); },
+        [=](World& w) { Rng rr(11); Prior pp; pp.tag = "q_"; PointOpts qo; qo.ndim = ndim; qo.n = 5; qo.nvar = 0; w.dout.reset(makePoints(rr, qo, pp)); });
+    add("null-neigh", [=](World& w) { return f(w.in(), w.out(), w.model.get(), nullptr); });
+  }
+  else
+  {
+    int nbsimu = r.irange(1, 2), seed = r.irange(1, 100000), nbtuba = r.irange(5, 15);
+    e.newOut = nbsimu;
+    e.anyLoc.push_back(ELoc::SIMU.getValue());
+    s.sig = fmt("ndim=%d:neigh=%s:nbsimu=%d:floc=%d", ndim, moving ? "moving" : "unique", nbsimu, (int)e.flagLocator);
+    auto f = [=](Db* a, Db* b, Model* m, ANeigh* ng, int nbt) { return simtub(a, b, m, ng, nbsimu, seed, nbt, true, false, nc); };
+    s.valid.fn = [=](World& w) { return f(w.in(), w.out(), w.model.get(), w.neigh.get(), nbtuba); };
+    add.e = e;
+    add("nbtuba-zero", [=](World& w) { return f(w.in(), w.out(), w.model.get(), w.neigh.get(), 0); });
+    add("model-without-anam", [=](World& w) { std::unique_ptr<Model> m(noAnam->clone()); return f(w.in(), w.out(), m.get(), w.neigh.get(), nbtuba); });
+    add("dbout-points", [=](World& w) { return f(w.in(), w.out(), w.model.get(), w.neigh.get(), nbtuba); },
+        [=](World& w) { Rng rr(11); Prior pp; pp.tag = "q_"; PointOpts qo; qo.ndim = ndim; qo.n = 5; qo.nvar = 0; w.dout.reset(makePoints(rr, qo, pp)); });
+    add("null-neigh", [=](World& w) { return f(w.in(), w.out(), w.model.get(), nullptr, nbtuba); });
+  }
+  s.valid.exp = e;
+}
+
 // ------------------------------------------------------------------------------------------------
 // Case dispatcher
 // ------------------------------------------------------------------------------------------------
@@ -1884,7 +1968,7 @@ static void run_case(Rng& r, Ctx& c)
     "kriging", "xvalid", "test_neigh", "krigtest", "krigcell", "kribayes", "krigprof", "kriggam", "simtub", "migrate", "migrateMulti", "migrateByAttribute",
     "migrateByLocator", "dbStatisticsOnGrid", "dbRegression", "rawToGaussianByLocator", "rawToGaussian", "gaussianToRaw",
     "normalScore", "rawToFactor", "simbayes", "simfft", "ConditionalExpectation", "UniformConditioning",
-    "DisjunctiveKriging", "dbZ2F", "dbF2Z", "dbg2gCopy", "dbg2gExpand", "dbg2gShrink", "simpgs"};
+    "DisjunctiveKriging", "dbZ2F", "dbF2Z", "dbg2gCopy", "dbg2gExpand", "dbg2gShrink", "simpgs", "kriging-dgm", "simtub-dgm"};
   // stratified: the calculator is a function of the case index so that every range of cases covers all of them
   const std::string& which = calcs[c.icase % calcs.size()];
   Scen s;
@@ -1900,6 +1984,8 @@ static void run_case(Rng& r, Ctx& c)
     scenStatistics(r, c, s, which);
   else if (which == "simpgs")
     scenSimpgs(r, c, s);
+  else if (which == "kriging-dgm" || which == "simtub-dgm")
+    scenDGM(r, c, s, which);
   else if (which.rfind("dbg2g", 0) == 0)
     scenGridToGrid(r, c, s, which);
   else if (which == "simbayes" || which == "simfft")
